@@ -12,7 +12,12 @@ case = one run of update_file:
    "ws": [flag, ...]                   Index layout, white space the deb822 format allows (WS_FLAGS): blank /
                                        tab at the end of the History / Patches / Download entry lines, at the
                                        end of a field's first line, tab as continuation indent, tabs between
-                                       the columns, an empty line closing the paragraph
+                                       the columns, an empty line closing the paragraph; the first entry of
+                                       the History / Patches / Download field on the line of the field name
+                                       (one flag per field), no blank after the colon, no newline after the
+                                       Index's last line (whichever line the field order puts there: a
+                                       Patches, History, Download entry or the Current line; wins over the
+                                       closing empty line), CR LF line ends (route not judged, see ASSUMPTIONS)
    "verbose": bool, "via": 0 | 1 | 2                  how update_file is called (see below)
    "start": ["absent"] | ["v", i] | ["current"] | ["foreign"]        the local file before the call
    "faults": [fault, ...]                                             usually none or one
@@ -74,6 +79,11 @@ and, in addition, every start state without fault at the opposite value.  The de
 ``plans()``) run at the history's own verbose value: 8 (n = 1: 7) per start for a fixed history, 2 per start
 for a generated one (every one of them forks a process); so do the plans with an earlier completed
 update from the same URL: 6 + n per start (4 + n for n = 1) for a fixed history, 2 for a generated one.
+
+A third, enumerated source ("index-layouts", ``enum_layouts()``) runs three of the fixed histories (n = 1, 2, 3)
+through every Index layout flag alone, the newer flags combined, and every pair of a newer flag with any
+other flag, in every field order / hash configuration, from every start state without fault and with four
+fault plans from the oldest version.
 """
 import builtins
 import contextlib
@@ -107,8 +117,9 @@ RULE = ("Hypothesis generates histories v0..vn (n=1..4, 0..7 lines per version f
         "each version derived from the previous one by 1..2 hunks, sometimes (1 step in 8) reverting to an "
         "earlier one, sometimes (1 step in 8, any step incl. the first and the last, also several in a row) "
         "identical to the previous one = a no-change step whose patch is the empty script) x Index layout (SHA1 / SHA256 / both, 4 field orders, ignorable fields, 2 naming "
-        "schemes, 0..3 of 6 white-space variants the format allows: blank / tab ending the entry lines, blank+tab ending a field's first line, "
-        "tab indent, tab between columns, closing empty line) x call form (verbose False / True; parameter by keyword, positional, or through the "
+        "schemes, 0..3 of 12 layout variants the format allows: blank / tab ending the entry lines, blank+tab ending a field's first line, "
+        "tab indent, tab between columns, closing empty line, first History / Patches / Download entry on the field's own line (3 flags), "
+        "no blank after the colon, last line of the Index without newline, CR LF line ends) x call form (verbose False / True; parameter by keyword, positional, or through the "
         "deprecated alias updateFile); for every history the complete plan set is enumerated (fixed "
         "histories: at both verbose values; generated histories: at the drawn verbose value, plus every "
         "start without fault at the other value): start in {absent, each vi, "
@@ -123,7 +134,11 @@ RULE = ("Hypothesis generates histories v0..vn (n=1..4, 0..7 lines per version f
         "and one publication earlier in the last write - n=1: same repository, 1st write); then start x an earlier update of another local file, "
         "completed in the same process from the same URL, after which the repository directory was rewritten in place: it had published vn..v0 under the same "
         "names (earlier run by patches / by full download), v0..vn-1 (same two), the same history (no fault; then patch j replaced for each j, last patch "
-        "wrong) - generated histories: the reversed history by patches, and the same history with the last patch replaced afterwards.  Non-trivial = no fault and the local file at v1..vn-1 of a history with n>=2, "
+        "wrong) - generated histories: the reversed history by patches, and the same history with the last patch replaced afterwards.  "
+        "Enumerated besides (index-layouts): 3 fixed histories (n=1,2,3) x {each of the 12 layout flags alone, the 3 first-entry-inline flags together, "
+        "all 6 newer flags with / without CR LF: each x 3 hash configurations x 4 field orders x with/without ignorable fields; every pair "
+        "(newer flag, other flag) x 4 field orders at a rotating hash configuration} x {every start without fault; oldest version x "
+        "{last patch replaced, first patch wrong, wrong Current hash, rename failing}}.  Non-trivial = no fault and the local file at v1..vn-1 of a history with n>=2, "
         "or a fault that took effect (the damaged resource was fetched / the write, open, rename "
         "or close was attempted); a debris plan: the earlier run left something and (no fault or the fault took effect); distinct = distinct canonical JSON of the (history incl. layout and call "
         "form, start, faults, debris, prior) tuple")
@@ -144,7 +159,12 @@ ASSUMPTIONS = [
     "under test; the repository is rewritten in place between them with shutil.rmtree + the same builder; "
     "'chain applied' is observed as: the chain's patch URLs, and not the full file, were fetched by the call",
     "Index white-space variants: what deb822 / APT's tag-file reader accept (trailing blanks are not part of a value, "
-    "continuation lines start with blank or tab, columns are separated by any run of blanks and tabs)",
+    "continuation lines start with blank or tab, columns are separated by any run of blanks and tabs; a field's value may "
+    "start on the line of its name and continue on the following lines, the blank after the colon is optional, the last line "
+    "of a file need not end with a newline); such an Index is a usable one: the chain must be applied",
+    "CR LF line ends are not part of the deb822 grammar: an Index written with them may be treated as usable or as unusable - "
+    "the end state (converged, or a detected hash mismatch with the local file intact) is judged, the route (chain or full "
+    "download) and the detection of a wrong Current hash are not",
     "the call's output is captured with contextlib.redirect_stdout into a StringIO (so printing cannot fail "
     "on the stream's encoding) and is not judged; verbose is the only parameter of update_file besides "
     "remote and local; the knobs of its helpers (replace_file encoding=, patches_from_ed_script re_cmd=) "
@@ -158,6 +178,11 @@ EXHAUSTIVE = {
     "thorough": "for each of the 12 fixed histories (5 of them with no-change steps: first, last, interior, two in a row, only step) x 3 hash configurations x verbose False/True and for every "
                 "generated history (at its drawn call form): every start state x every fault plan, every debris plan and every earlier-update plan of plans()",
 }
+LAYOUTS_DESC = ("index-layouts: for 3 of the fixed histories (n = 1, 2, 3): every Index layout flag alone, the three first-entry-on-the-field-line "
+                "flags together, the newer flags together (with and without CR LF) - each x 3 hash configurations x 4 field orders x "
+                "with/without ignorable fields - and every pair of a newer flag with any other flag x 4 field orders; each x every "
+                "start state without fault + 4 fault plans from the oldest version")
+EXHAUSTIVE = {t: d + "; " + LAYOUTS_DESC for t, d in EXHAUSTIVE.items()}
 BUDGET = {"quick": 180, "thorough": 1800}
 
 PATCH_FAULTS = ("replaced", "equivalent", "wrong", "truncated", "notgzip", "missing")
@@ -166,9 +191,14 @@ N_BROKEN = 6
 VIA = ("keyword", "positional", "alias")
 # Index layouts the deb822 format allows (APT reads them all alike): blanks / tabs at the end of the
 # History / Patches / Download entry lines, at the end of the field's first line, a tab as the
-# continuation indent, tabs between the columns, an empty line closing the paragraph
+# continuation indent, tabs between the columns, an empty line closing the paragraph; then the newer ones
 WS_FLAGS = ("entry-trail-space", "entry-trail-tab", "head-trail", "tab-indent", "tab-columns",
-            "final-blank-line")
+            "final-blank-line",
+            # a multi-line field's first entry on the line of the field name (per field), no blank after
+            # the colon, the Index's last line not terminated (whichever field the order puts last),
+            # CR LF line ends
+            "history-first-inline", "patches-first-inline", "download-first-inline", "colon-tight",
+            "no-final-newline", "crlf")
 WS_FIXED = ([], ["entry-trail-space"], ["tab-indent", "head-trail"], ["entry-trail-tab"],
             ["tab-columns", "final-blank-line"], ["entry-trail-space", "entry-trail-tab", "tab-indent"],
             ["head-trail", "tab-columns"])
@@ -388,32 +418,38 @@ def build_repository(root, vs, cfg, faults, sub="repo"):
     sep = "\t" if "tab-columns" in ws else " "
     trail = (" " if "entry-trail-space" in ws else "") + ("\t" if "entry-trail-tab" in ws else "")
     htrail = " \t" if "head-trail" in ws else ""
-    entry = lambda *cols: indent + sep.join(cols) + trail + "\n"
+    colon = ":" if "colon-tight" in ws else ": "
+
+    def table(fam, name, rows):
+        """A multi-line field: its entries (column tuples) one per line after the field name, or - layout
+        '<name>-first-inline' - the first of them on the line of the field name itself."""
+        rows = [sep.join(cols) + trail for cols in rows]
+        if name.lower() + "-first-inline" in ws and rows:
+            head, rows = "%s-%s%s%s\n" % (fam, name, colon, rows[0]), rows[1:]
+        else:
+            head = "%s-%s:%s\n" % (fam, name, htrail)
+        return head + "".join(indent + r + "\n" for r in rows)
+
     out = []
     for fam in families:
         cur = enc(vs[-1] + [WRONG_LINE]) if "wrong-current" in xf else enc(vs[-1])
-        current = "%s-Current: %s%s%s%s\n" % (fam, _hexdigest(fam, cur), sep, pad % len(enc(vs[-1])), htrail)
-        hist = "%s-History:%s\n" % (fam, htrail)
-        for j in range(n):
-            if xf.get("columns") == j:
-                hist += entry(_hexdigest(fam, enc(vs[j])), patch_name(cfg, j))
-            else:
-                hist += entry(_hexdigest(fam, enc(vs[j])), pad % len(enc(vs[j])), patch_name(cfg, j))
-        pats = "%s-Patches:%s\n" % (fam, htrail)
-        for j in range(n):
-            if xf.get("unlisted") != j:
-                pats += entry(_hexdigest(fam, listed[j]), pad % len(listed[j]), patch_name(cfg, j))
+        current = "%s-Current%s%s%s%s%s\n" % (fam, colon, _hexdigest(fam, cur), sep, pad % len(enc(vs[-1])), htrail)
+        hist = table(fam, "History", [
+            (_hexdigest(fam, enc(vs[j])), patch_name(cfg, j)) if xf.get("columns") == j else
+            (_hexdigest(fam, enc(vs[j])), pad % len(enc(vs[j])), patch_name(cfg, j)) for j in range(n)])
+        pats = table(fam, "Patches", [(_hexdigest(fam, listed[j]), pad % len(listed[j]), patch_name(cfg, j))
+                                      for j in range(n) if xf.get("unlisted") != j])
         if cfg["extra"]:
-            pats += "%s-Download:%s\n" % (fam, htrail)
-            for j in range(n):
-                pats += entry(_hexdigest(fam, _gz(listed[j])), pad % len(_gz(listed[j])),
-                              patch_name(cfg, j) + ".gz")
+            pats += table(fam, "Download", [(_hexdigest(fam, _gz(listed[j])), pad % len(_gz(listed[j])),
+                                             patch_name(cfg, j) + ".gz") for j in range(n)])
         out += [[current, hist, pats], [pats, hist, current], [hist, current, pats],
                 [current, pats, hist]][cfg["order"]]
     if cfg["extra"]:
         out.insert(1, "X-Patch-Precedence: merged\n")
-        out.append("X-Unused-Comment: nothing to see,\n here\n")
-    if "final-blank-line" in ws:
+        # the ignorable two-line field ends the paragraph; where the Index lacks its final newline it
+        # opens the paragraph instead, so that the unterminated last line is one of the pdiff fields'
+        out.insert(0 if "no-final-newline" in ws else len(out), "X-Unused-Comment: nothing to see,\n here\n")
+    if "final-blank-line" in ws and "no-final-newline" not in ws:
         out.append("\n")
     text = "".join(out)
     if "broken" in xf:
@@ -423,6 +459,10 @@ def build_repository(root, vs, cfg, faults, sub="repo"):
                 " continuation without a field\n" + text,
                 "",                      # fetched successfully, zero bytes long
                 "\n\n"][xf["broken"]]
+    if "no-final-newline" in ws and text.endswith("\n"):
+        text = text[:-1]
+    if "crlf" in ws:
+        text = text.replace("\n", "\r\n")
     if "missing" not in xf:
         with open(os.path.join(pdir, "Index"), "wb") as f:
             f.write(text.encode("utf-8"))
@@ -786,7 +826,7 @@ def check(case):
             (must_raise if f[1] in ("replaced", "equivalent", "wrong") else either).append(nm)
         elif f[0] == "index" and nm in fired:
             if f[1] == "wrong-current":
-                (must_raise if in_hist and not is_cur else either).append(nm)
+                (must_raise if in_hist and not is_cur and "crlf" not in cfg["ws"] else either).append(nm)
             elif f[1] in ("columns", "unlisted"):
                 either.append(nm)
     what = "start=%s faults=%s hash=%s n=%d%s%s%s" % (
@@ -837,7 +877,9 @@ def check(case):
         outcome = "converged-by-patches" if got_patches else (
             "converged-by-full-download" if res["full"] in urls else "converged-nothing-to-do")
         # 4. the chain is used when the local content is in the history and the Index is sound
-        if in_hist and not is_cur and not any(f[0] == "index" for f in faults):
+        # (CR LF line ends are outside the deb822 grammar: such an Index may count as unusable, the
+        # statement then promises the same end state by a full download)
+        if in_hist and not is_cur and not any(f[0] == "index" for f in faults) and "crlf" not in cfg["ws"]:
             chains = [res["patches"][j:] for j in in_hist]
             if res["full"] in urls or got_patches not in chains:
                 raise Violation("chain-not-applied", "%s: fetched %s" % (
@@ -976,6 +1018,44 @@ def enum_fixed():
                 yield dict(hist, start=start, faults=faults, verbose=verbose, debris=debris, prior=prior)
 
 
+WS_NEW = WS_FLAGS[6:]
+LAYOUT_HISTORIES = (0, 1, 3)        # of FIXED: n = 1 (a one-entry table), n = 2 (non-ASCII), n = 3 (a content twice)
+
+
+def layouts():
+    """Index layouts of the 'index-layouts' source: every flag alone, the three first-entry-inline flags
+    together, every pair of a newer flag (WS_NEW) with any other flag, all the newer flags together."""
+    yield from ([w] for w in WS_FLAGS)
+    yield [w for w in WS_NEW if w.endswith("-first-inline")]
+    yield [w for w in WS_NEW if w != "crlf"]
+    yield list(WS_NEW)
+    for i, a in enumerate(WS_FLAGS):
+        for b in WS_FLAGS[i + 1:]:
+            if b in WS_NEW:
+                yield [a, b]
+
+
+def enum_layouts():
+    """Every layout of layouts() x (all 24 of hash family x field order x ignorable fields for a layout of
+    one flag or of 3+, all 4 field orders at a rotating (hash, ignorable fields) for a pair) x three fixed
+    histories x every start state without fault, and - local copy at the oldest version - x {last patch
+    replaced, first patch self-consistent but wrong, wrong Current hash, rename failing}."""
+    hx = [(h, e) for h in ("SHA1", "SHA256", "both") for e in (False, True)]
+    for k, ws in enumerate(layouts()):
+        for order in range(4):
+            for h, extra in (hx if len(ws) != 2 else [hx[(k + order) % len(hx)]]):
+                for i in LAYOUT_HISTORIES:
+                    vs = FIXED[i]
+                    n = len(vs) - 1
+                    hist = {"versions": vs, "hash": h, "order": order, "extra": extra, "names": (k + i) & 1,
+                            "verbose": False, "via": 0, "ws": ws, "debris": None, "prior": None}
+                    for start in [["absent"]] + [["v", j] for j in range(n)] + [["current"], ["foreign"]]:
+                        yield dict(hist, start=start, faults=[])
+                    for f in (["patch", "replaced", n - 1], ["patch", "wrong", 0], ["index", "wrong-current", 0],
+                              ["rename"]):
+                        yield dict(hist, start=["v", 0], faults=[f])
+
+
 def histories_phase(n_histories):
     """Custom source: Hypothesis draws histories; every plan of every history goes through check()."""
     def fn(shard, nshards, seed, deadline, rec):
@@ -1038,6 +1118,8 @@ def histories_phase(n_histories):
 def sources(tier):
     if tier == "quick":
         return [Enum("fixed-histories", enum_fixed, EXHAUSTIVE["quick"]),
+                Enum("index-layouts", enum_layouts, LAYOUTS_DESC),
                 Custom("histories", histories_phase(12), shards=16)]
     return [Enum("fixed-histories", enum_fixed, EXHAUSTIVE["thorough"]),
+            Enum("index-layouts", enum_layouts, LAYOUTS_DESC),
             Custom("histories", histories_phase(400), shards=16)]
